@@ -7,6 +7,7 @@ package main
 import (
 	"fmt"
 	"os"
+	"time"
 )
 
 type checkFn func(tier string)
@@ -35,6 +36,17 @@ func main() {
 			fmt.Printf("no check for %s\n", id)
 			os.Exit(2)
 		}
+		// watchdog: a check that runs far beyond its budget is inconclusive,
+		// never silently stuck
+		limit := 20 * time.Minute
+		if tier == "thorough" {
+			limit = 90 * time.Minute
+		}
+		go func() {
+			time.Sleep(limit)
+			fmt.Printf("INCONCLUSIVE: check %s exceeded its %v watchdog\n", id, limit)
+			os.Exit(2)
+		}()
 		f(tier)
 	case "replay":
 		replayFile(os.Args[2])
